@@ -96,6 +96,9 @@ func observeLoadReader(which string, r io.Reader) (o loadObs) {
 	}
 	if err != nil || md == nil {
 		o.Status = "err"
+		if err == nil {
+			noteContractBreak(which, nil)
+		}
 	} else {
 		o.Status = "ok"
 		o.MD = mdString(md)
